@@ -18,7 +18,7 @@ TRUSTED = [
     "server behaviours for Minecraft and the proprietary UDP protocols are silence and malformed replies until those protocols have reply generators (C03, C07)",
 ]
 RULE = ("every entry of the definitions table x port omitted / given x timeout settings None / Some x server behaviours: for Valve games replies generated for the definition's engine (expected, dedicated and foreign app ids) and gather settings, "
-        "complete, truncated after each datagram, and silence; Quake, Unreal 2 and GameSpy games likewise from their reply generators; the other games silence and a malformed datagram; "
+        "complete, truncated after each datagram, and silence; Valve games with explicit extra request settings (each field unset / set) against a server of the game and of another game;  Quake, Unreal 2 and GameSpy games likewise from their reply generators; the other games silence and a malformed datagram; "
         "non-trivial = at least one path obtained a response; distinct by case bytes")
 
 HAND = {"theship", "ffow", "jc2m", "savage2", "mindustry", "battalion1944", "minecraft", "minecraftjava", "minecraftbedrock",
@@ -122,6 +122,12 @@ def gen_cases(tier, rng):
         c["meta"]["game"] = "minecraftjava"
         c["meta"]["stream"] = "minecraft-extra-settings"
         cases.append(c)
+    # Valve games through the generic entry point with extra request settings: the model side of these cases is the
+    # protocol-level call with the equivalent gather settings (Model/Dispatch.v dispatch), so a mismatch is a disagreement of the paths
+    import C11
+    for c in C11.extra_settings_rows(tier, rng.fork("xs")):
+        c["meta"]["stream"] = "valve-extra-settings"
+        cases.append(c)
     cases.append({"id": "battalion1944/rule", "hex": paths_case("battalion1944", "battalion1944", None, None, [info, players, rules]),
                   "meta": {"stream": "valid", "game": "battalion1944", "module": "battalion1944", "port": None, "ts": False}})
     return cases
@@ -151,6 +157,11 @@ def oracle(case, impl, side):
         import C09
         f = C09.oracle(case, impl, side)
         return None if f is None else ("extra-settings:minecraftjava", "the generic entry point with extra request settings does not send what the protocol-level call with the equivalent settings sends: " + f[1])
+    if case["meta"].get("stream") == "valve-extra-settings":
+        import C11
+        c2 = dict(case); c2["meta"] = dict(case["meta"], stream="generic-extra-settings")
+        f = C11.oracle(c2, impl, side)
+        return None if f is None else ("extra-settings:" + case["meta"]["game"], "the generic entry point with extra request settings does not behave like the protocol-level call with the equivalent settings: " + f[1])
     if "paths=DIFF" in side:
         d = side.split("paths=DIFF ", 1)[1].split(";module=", 1)[0]
         first = d.split(" ", 1)[0] if "[" not in d.split(" ", 1)[0] else d
